@@ -92,7 +92,25 @@ func genC17(e *emitter, tier string, seed int64) {
 	genC17Tree(e, tier, rng)
 	genC17Err(e, tier, rng)
 	genC17Link(e)
+	genC17ErrV2(e)
 	genC17Chain(e, tier, rng)
+}
+
+// run-time faults on the v2 interpreter: the error names the script and a position inside the statement at fault
+func genC17ErrV2(e *emitter) {
+	pre := "s = \"a\"\nl = [1, 2, 3]\nzero0 = 0\nf = 1.5\nm = {\"k\": 1}\n"
+	for _, f := range []string{"x = l[:s]", "x = l[0:s]", "x = l[s:]", "x = l[::s]", "x = l[0:s:]", "x = \"abc\"[0:s]", "x = l[0:f]", "x = l[f:2:1]", "x = l[1 / zero0]", "x = 1 + s", "l[s] = 1",
+		"x = undefinedname", "if s + 1 {\n}", "for q in 5 {\n}", "x = -s", "x = l[5]", "x = m[\"z\"][\"y\"][0]", "x = 1 in 5", "x = l[:zero0:zero0]", "x, y = 1", "x = a.b", "  x = [1, l[9]]", "p(1, 1 % zero0)", "l[0] += s"} {
+		src := pre + "p(0)\n" + f + "\np(9)\n"
+		at := len(pre) + len("p(0)\n")
+		out := runV2(runCase{Scripts: []scriptSrc{{"main.p", src}}, Entry: "main.p", SigK: 3000, HasSig: true})
+		obs, _ := out["obs"].(map[string]any)
+		if obs == nil || obs["outcome"] != "err" {
+			continue
+		}
+		e.stat("errpos-run-v2")
+		e.emit(map[string]any{"k": "errpos", "src": hx(src), "file": hx("main.p"), "srcs": map[string]any{hx("main.p"): hx(src)}, "err": obs["err"], "span": lineSpan(src, at, at+len(f)), "gen": "errpos-run-v2", "key": f})
+	}
 }
 
 // ---- positions stored in the tree: generated trees x layouts, judged on the dumped tree ----
